@@ -90,6 +90,21 @@ where
     | [] => true
     | (_, x) :: xs => clean x && cleanMap xs
 
+/-- openCypher orderability of the kinds of value, ascending:
+    MAP < NODE < RELATIONSHIP < LIST < PATH < STRING < BOOLEAN < NUMBER < (engine-specific: datetime < blob) < NULL -/
+def typeRank : Value → Nat
+  | .map _ => 0
+  | .nodeId _ | .externalId _ => 1
+  | .edgeKey _ => 2
+  | .list _ => 3
+  | .path _ _ => 4
+  | .str _ => 5
+  | .bool _ => 6
+  | .int _ | .float _ => 7
+  | .dateTime _ => 8
+  | .blob _ => 9
+  | .null => 10
+
 /-! ### aggregates (C21) -/
 
 /-- the group's non-null values, in row order -/
